@@ -869,6 +869,134 @@ func unixtimeKind(base *Kind, ptr bool) *Kind {
 	return k
 }
 
+// ---- untyped JSON payloads -----------------------------------------------------------------------------
+//
+// `serializer:json` over interface{}-bearing types. The documented behaviour is
+// encoding/json's: a number inside an untyped value loads as float64. The
+// normaliser renders a value with a tag per dynamic type, integers as the
+// float64 they become; anything else (json.Number, …) keeps its own type name,
+// so equal renderings ⇔ reflect.DeepEqual with "input marshalled and
+// unmarshalled by encoding/json into a fresh value of the field type".
+
+func renderUntyped(v interface{}) string {
+	switch x := v.(type) {
+	case nil:
+		return "nil"
+	case float64:
+		return cFloat(x)
+	case float32:
+		return cFloat(float64(x))
+	case int:
+		return cFloat(float64(x))
+	case int64:
+		return cFloat(float64(x))
+	case string:
+		return cStr(x)
+	case bool:
+		return cBool(x)
+	case []interface{}:
+		if x == nil {
+			return "nil"
+		}
+		parts := make([]string, len(x))
+		for i, e := range x {
+			parts[i] = renderUntyped(e)
+		}
+		return "[" + strings.Join(parts, ",") + "]"
+	case map[string]interface{}:
+		if x == nil {
+			return "nil"
+		}
+		keys := make([]string, 0, len(x))
+		for k := range x {
+			keys = append(keys, k)
+		}
+		sort.Strings(keys)
+		parts := make([]string, len(keys))
+		for i, k := range keys {
+			parts[i] = strconv.Quote(k) + ":" + renderUntyped(x[k])
+		}
+		return "{" + strings.Join(parts, ",") + "}"
+	}
+	return fmt.Sprintf("(%T)%v", v, v)
+}
+
+func genUntyped(t *rapid.T, label string, depth int) interface{} {
+	max := 8
+	if depth >= 2 {
+		max = 6
+	}
+	switch rapid.IntRange(0, max).Draw(t, label+".u") {
+	case 0:
+		return nil
+	case 1:
+		return rapid.SampledFrom([]float64{0.5, -2.25, 3, 0, 1e-7, 1e18, 9007199254740994, -9007199254740996, 1e21}).Draw(t, label+".f")
+	case 2:
+		return rapid.SampledFrom([]int{7, -1, 0, 1 << 40}).Draw(t, label+".i")
+	case 3:
+		return rapid.SampledFrom([]int64{1 << 53, -(1 << 53), 42}).Draw(t, label+".i64")
+	case 4:
+		s, _ := genString(t, label+".s")
+		return s
+	case 5:
+		return rapid.Bool().Draw(t, label+".b")
+	case 6:
+		return rapid.SampledFrom([]float64{1, 2.5, 1234567890123}).Draw(t, label+".f2")
+	case 7:
+		n := rapid.IntRange(0, 3).Draw(t, label+".ln")
+		l := make([]interface{}, n)
+		for i := range l {
+			l[i] = genUntyped(t, fmt.Sprintf("%s.%d", label, i), depth+1)
+		}
+		return l
+	}
+	n := rapid.IntRange(0, 3).Draw(t, label+".mn")
+	m := map[string]interface{}{}
+	for i := 0; i < n; i++ {
+		m[rapid.SampledFrom([]string{"n", "list", "sub", "x y", ""}).Draw(t, fmt.Sprintf("%s.k%d", label, i))] = genUntyped(t, fmt.Sprintf("%s.v%d", label, i), depth+1)
+	}
+	return m
+}
+
+func untypedJSONKind(name string, typ reflect.Type, top func(t *rapid.T, label string) interface{}) *Kind {
+	k := &Kind{Name: "json:" + name, Group: "serializer", Type: typ, Family: FOpaque, Special: true, Nullable: true,
+		BaseTag: []string{"serializer:json"}, ZeroCanon: Null}
+	render := func(v interface{}) string {
+		r := renderUntyped(v)
+		if r == "nil" {
+			return Null
+		}
+		return "u:" + r
+	}
+	k.gen = func(t *rapid.T, label string) (reflect.Value, bool) {
+		v := reflect.New(typ).Elem()
+		if x := top(t, label); x != nil {
+			v.Set(reflect.ValueOf(x))
+		}
+		return v, true
+	}
+	k.canon = func(v reflect.Value) string { return render(v.Interface()) }
+	k.canonRaw = func(raw interface{}) (string, error) {
+		s, ok := rawString(raw)
+		if !ok {
+			return "", fmt.Errorf("json column holds %T(%v)", raw, raw)
+		}
+		p := reflect.New(typ)
+		if err := json.Unmarshal([]byte(s), p.Interface()); err != nil {
+			return "", fmt.Errorf("json column holds %q: %v", s, err)
+		}
+		return render(p.Elem().Interface()), nil
+	}
+	k.dbValue = func(v reflect.Value) interface{} {
+		b, _ := json.Marshal(v.Interface())
+		if string(b) == "null" {
+			return nil
+		}
+		return string(b)
+	}
+	return k
+}
+
 // ---- kinds whose own type implements schema.SerializerInterface -------------------------------------
 
 func cSerDoc(d SerDoc) string {
@@ -1053,6 +1181,31 @@ var (
 		d, b := genDoc(t, label)
 		return reflect.ValueOf(&d), b
 	})
+	KJSONAnyMap = untypedJSONKind("map[string]interface{}", reflect.TypeOf(map[string]interface{}(nil)), func(t *rapid.T, label string) interface{} {
+		n := rapid.IntRange(-1, 3).Draw(t, label+".n")
+		if n < 0 {
+			return nil
+		}
+		m := map[string]interface{}{}
+		for i := 0; i < n; i++ {
+			m[rapid.SampledFrom([]string{"a", "num", "list", "sub"}).Draw(t, fmt.Sprintf("%s.k%d", label, i))] = genUntyped(t, fmt.Sprintf("%s.v%d", label, i), 1)
+		}
+		return m
+	})
+	KJSONAnyList = untypedJSONKind("[]interface{}", reflect.TypeOf([]interface{}(nil)), func(t *rapid.T, label string) interface{} {
+		n := rapid.IntRange(-1, 3).Draw(t, label+".n")
+		if n < 0 {
+			return nil
+		}
+		l := make([]interface{}, n)
+		for i := range l {
+			l[i] = genUntyped(t, fmt.Sprintf("%s.%d", label, i), 1)
+		}
+		return l
+	})
+	KJSONAny = untypedJSONKind("interface{}", reflect.TypeOf((*interface{})(nil)).Elem(), func(t *rapid.T, label string) interface{} {
+		return genUntyped(t, label, 0)
+	})
 	KGob      = gobKind(false)
 	KGobBytes = gobKind(true)
 
@@ -1064,7 +1217,7 @@ var (
 	KUnixUint     = unixtimeKind(KUint, false)
 	KUnixUint32   = unixtimeKind(KUint32, false)
 
-	Serializers = []*Kind{KJSONStrings, KJSONMap, KJSONDoc, KJSONPtrDoc, KGob, KGobBytes, KUnixInt64, KUnixInt, KUnixInt32, KUnixInt16, KUnixPtrInt64}
+	Serializers = []*Kind{KJSONStrings, KJSONMap, KJSONDoc, KJSONPtrDoc, KJSONAnyMap, KJSONAnyList, KJSONAny, KGob, KGobBytes, KUnixInt64, KUnixInt, KUnixInt32, KUnixInt16, KUnixPtrInt64}
 	KSerDoc     = serDocKind()
 	KSerList    = serListKind()
 	// SerializerTypes: field types that implement schema.SerializerInterface themselves
